@@ -71,7 +71,8 @@ def compound_rows(ctx, facts, kind):
             stops[n.id] = "REJECT"
         if isinstance(n.info, tuple) and n.info[0] == "label" \
                 and n.info[1] == "error":
-            stops[n.id] = "REJECT"
+            # leaves the loop over alternatives: the whole compound rejects
+            stops[n.id] = "REJECT-ALL"
     # which local holds the descriptor of the current alternative
     info_var = None
     for n in g.nodes:
@@ -136,3 +137,37 @@ def c03_clone(ctx, res):
     if pairs < 15:
         raise AnalysisError(f"only {pairs} validator/arm pairs compared, "
                             f"floor is 15")
+
+
+@rule("C03.next-alternative", ["C03"],
+      "when an alternative of a compound trait does not accept, the next "
+      "alternative is tried: no arm of the compound switch leaves the loop "
+      "over alternatives with a rejection")
+def next_alternative(ctx, res):
+    facts = get_cfacts(ctx)
+    g = get_ccfg(ctx, facts, "validate_trait_complex")
+    sw = [n for n in g.nodes if n.kind == "switch"]
+    if len(sw) != 1:
+        raise AnalysisError("validate_trait_complex: expected one switch")
+    kinds = sorted(lab[1] for lab, tgt in g.succ[sw[0].id]
+                   if isinstance(lab, tuple))
+    if len(kinds) < 16:
+        raise AnalysisError(f"only {len(kinds)} arms in the compound switch")
+    for k in kinds:
+        rows, _ = compound_rows(ctx, facts, k)
+        outcomes = {r[2] for r in rows}
+        nxt = sum(1 for r in rows if r[2] == ("REJECT",))
+        res.instance(f"case {k}", facts.loc(facts.func("validate_trait_complex")),
+                     rows=len(rows), try_next_rows=nxt)
+        bad = [r for r in rows if r[2] == ("REJECT-ALL",)]
+        res.oblige(not bad, f"validate_trait_complex[case {k}]:reject-all",
+                   f"{CREL}:{bad[0][3][-1] if bad and bad[0][3] else 0}",
+                   f"case {k} of the compound validator can reject the value "
+                   f"for the whole compound trait (jumps to `error`) instead "
+                   f"of trying the next alternative: a value accepted only by "
+                   f"a later alternative is refused",
+                   [f"{CREL}:{l}" for l in dict.fromkeys(bad[0][3]) if l]
+                   if bad else None)
+        res.oblige(nxt > 0, f"validate_trait_complex[case {k}]:has-next",
+                   CREL, f"case {k} never falls through to the next "
+                   f"alternative")
